@@ -87,6 +87,9 @@ def plan(prop, tier, seed):
                 runs.append(("sexh1/3-pod", ["sexh", "1", "3"], {"VH_POD": "1"}))
                 runs.append(("sexh2/3-pod", ["sexh", "2", "3"], {"VH_POD": "1"}))
             if prop == "C12":
+                # tracked storages over plain-data component types (kinds 8 and 9 without drop glue)
+                runs.append(("sgen-tracked-pod", ["sgen", str(seed * 1000 + 92), "350", "45", "tracked"], {"VH_POD": "1"}))
+                runs.append(("sgen-many-pod", ["sgen", str(seed * 1000 + 93), "300", "45", "many"], {"VH_POD": "1"}))
                 # the same tracked histories on the build of specs without `storage-event-control` (and without `parallel`)
                 runs.append(("np/sgen-tracked", ["sgen", str(seed * 1000 + 66), "400", "45", "tracked"]))
                 runs.append(("np/sgen-many", ["sgen", str(seed * 1000 + 67), "300", "45", "many"]))
@@ -116,6 +119,7 @@ def plan(prop, tier, seed):
                         runs.append((f"sexh{k}/4/{s}-pod", ["sexh", str(k), "4", str(s), "4"], {"VH_POD": "1"}))
             if prop == "C12":
                 for i in range(4):
+                    runs.append((f"sgen-tracked-pod{i}", ["sgen", str(seed * 1000 + 92 + 2 * i), "2500", "90", "tracked"], {"VH_POD": "1"}))
                     runs.append((f"np/sgen-tracked{i}", ["sgen", str(seed * 1000 + 66 + 2 * i), "2500", "90", "tracked"]))
                     runs.append((f"np/sgen-many{i}", ["sgen", str(seed * 1000 + 67 + 2 * i), "2000", "90", "many"]))
             if prop == "C12":
